@@ -120,9 +120,35 @@ class CallMixin:
     def bi_max(self, node, st, want):
         return self._minmax(node, st, False)
 
+    def _minmax_key(self, node, st, is_min):
+        """min(S, key=m.__getitem__) over a set / sequence S of keys of an int-valued map m: some element of S whose
+        m-value is minimal.  ValueError on an empty S, KeyError when an element is not a key of m."""
+        kw = node.keywords[0]
+        if len(node.keywords) != 1 or kw.arg != "key" or len(node.args) != 1:
+            raise Unsupported("min/max with these keywords")
+        kf = kw.value
+        if not (isinstance(kf, ast.Attribute) and kf.attr == "__getitem__"):
+            raise Unsupported("min/max with a key function other than <map>.__getitem__")
+        m = self.ev(kf.value, st)
+        if not (isinstance(m.ty, T.Map) and m.ty.val == T.Int):
+            raise Unsupported(f"min/max key map of type {m.ty}")
+        src = self.ev(node.args[0], st)
+        member = src if isinstance(src.ty, T.Set) else (self.elems(src) if isinstance(src.ty, T.Seq) else None)
+        if member is None or member.ty.elem != m.ty.key:
+            raise Unsupported(f"min/max over {src.ty} with key map {m.ty}")
+        dom, val = m.ty.dom(m.t), m.ty.valarr(m.t)
+        x = z3.Const(fresh_name("x"), m.ty.key.sort())
+        self.check(st, member.t != member.ty.empty(), "ValueError(min/max of an empty collection)", node)
+        self.check(st, z3.ForAll([x], z3.Implies(z3.Select(member.t, x), z3.Select(dom, x))), "KeyError(key function)", node)
+        r = fresh(m.ty.key, "argmin" if is_min else "argmax")
+        st.assume(z3.Select(member.t, r.t))
+        cmp = (lambda a, b: a <= b) if is_min else (lambda a, b: a >= b)
+        st.assume(z3.ForAll([x], z3.Implies(z3.Select(member.t, x), cmp(z3.Select(val, r.t), z3.Select(val, x))), patterns=[z3.Select(member.t, x)]))
+        return r
+
     def _minmax(self, node, st, is_min):
         if node.keywords:
-            raise Unsupported("min/max with key")
+            return self._minmax_key(node, st, is_min)
         args, seq = self._two_or_seq(node, st)
         if args is not None:
             if any(a.ty == T.Real for a in args):
@@ -524,6 +550,16 @@ class CallMixin:
                     o = self.bi_set(ast.Call(func=ast.Name(id="set"), args=[node.args[0]], keywords=[]), st, None)
                 writeback(SV(z3.SetUnion(base.t, o.t), ty))
                 return SV(T.NoneT.value(), T.NoneT)
+            if meth in ("intersection", "union", "difference") and len(node.args) == 1:
+                o = self.ev(node.args[0], st)
+                if isinstance(o.ty, T.Seq):
+                    o = self.elems(o)
+                if isinstance(o.ty, T.Map):
+                    o = SV(o.ty.dom(o.t), T.Set(o.ty.key))
+                if o.ty != ty:
+                    raise Unsupported(f"set.{meth}({o.ty})")
+                op = {"intersection": z3.SetIntersect, "union": z3.SetUnion, "difference": z3.SetDifference}[meth]
+                return SV(op(base.t, o.t), ty)
         if isinstance(ty, T.Map):
             dom, val = ty.dom(base.t), ty.valarr(base.t)
             if meth == "get":
